@@ -36,6 +36,8 @@ def lock_order_scenario(other, dead_pred):
 
 def lock_order(ck):
     scs = [ck.replay] if ck.replay is not None else [lock_order_scenario(o, d) for o in OTHERS for d in (False, True)]
+    unparked = []
+    ck.unparked = unparked
     for sc in scs:       # one driver process each: a deadlocked scenario must not take the others with it
         ev = ringlib.run_scenarios(ck, [sc], timeout=300)
         steps = [e for e in ev if e.get("t") == "step"]
@@ -43,8 +45,11 @@ def lock_order(ck):
         ops = final[-1]["ops"] if final else {}
         parked = any(e.get("op") == "j2" and str(e.get("to", "")).startswith("ns:enter") for e in steps)
         if not parked:
-            raise vf.Infra("scenario %s: the join request did not reach the sub-gate inside RequestToJoin: %s"
-                           % (sc["name"], [(e.get("op"), e.get("to")) for e in steps if e.get("op") == "j2"]))
+            # the request was turned away before it took the node's locks: nothing to interleave with.  Inconclusive only if nothing else
+            # of this run shows a violation (raised at the end)
+            unparked.append("scenario %s: the join request did not reach the sub-gate inside RequestToJoin: %s"
+                            % (sc["name"], [(e.get("op"), e.get("to")) for e in steps if e.get("op") == "j2"][-6:]))
+            continue
         ck.count(sc["name"], True)
         ck.traces += 1
         j, o = ops.get("j2") or {}, ops.get(sc["other"]) or {}
@@ -68,4 +73,6 @@ def run(ck):
     ringcheck.engine(ck, "C08", KINDS)
     if ck.replay is None:
         lock_order(ck)
+    if getattr(ck, "unparked", None) and not ck.viol:
+        raise vf.Infra(ck.unparked[0])
     ringcheck.finish_common(ck)
